@@ -284,7 +284,7 @@ theorem flush_ok : PhaseOK State.flush := by
   have h : PhaseOK (runPhases (flushReadyFlag :: flushIPSetsAB ::
       [flushPolicyUpdates, flushProfileUpdates, flushEndpointTierUpdates,
        flushEndpointTierDeletes, flushProfileDeletes, flushPolicyDeletes, flushRemovedIPSets,
-       flushGen .sa, flushGen .ns, flushRouteRemoves, flushVTEPRemoves, flushVTEPAdds, flushRouteAdds,
+       flushGen .sa, flushGen .ns, flushRouteRemoves, flushVTEPAdds, flushRouteAdds, flushVTEPRemoves,
        flushWgDeletes, flushWgUpdates, flushGen .host, flushGen .pool, flushEncap, flushBGP, flushGen .svc])) := by
     repeat' first
       | exact PhaseOK.nil
@@ -299,7 +299,7 @@ theorem flush_ok : PhaseOK State.flush := by
   have e : s.flush = runPhases (flushReadyFlag :: flushIPSetsAB ::
       [flushPolicyUpdates, flushProfileUpdates, flushEndpointTierUpdates,
        flushEndpointTierDeletes, flushProfileDeletes, flushPolicyDeletes, flushRemovedIPSets,
-       flushGen .sa, flushGen .ns, flushRouteRemoves, flushVTEPRemoves, flushVTEPAdds, flushRouteAdds,
+       flushGen .sa, flushGen .ns, flushRouteRemoves, flushVTEPAdds, flushRouteAdds, flushVTEPRemoves,
        flushWgDeletes, flushWgUpdates, flushGen .host, flushGen .pool, flushEncap, flushBGP, flushGen .svc]) s := by
     show runPhases flushPhases s = _
     unfold flushPhases
@@ -340,7 +340,7 @@ theorem flush_empties (s : State) :
     (∀ c, (s'.gen c).upd = [] ∧ (s'.gen c).del = []) := by
   simp only [State.flush, flushPhases, runPhases_cons, runPhases]
   generalize h0 : (flushReadyFlag s).1 = s0
-  generalize h1 : (flushRouteAdds (flushVTEPAdds (flushVTEPRemoves (flushRouteRemoves (flushGen GenCat.ns (flushGen GenCat.sa
+  generalize h1 : (flushVTEPRemoves (flushRouteAdds (flushVTEPAdds (flushRouteRemoves (flushGen GenCat.ns (flushGen GenCat.sa
     (flushRemovedIPSets (flushPolicyDeletes (flushProfileDeletes (flushEndpointTierDeletes (flushEndpointTierUpdates
     (flushProfileUpdates (flushPolicyUpdates (flushIPSetDeltas (flushAddedIPSets s0).1).1).1).1).1).1).1).1).1).1).1).1).1).1).1 = s1
   obtain ⟨a1, b1, e1⟩ := wgDeletes_fst s1
